@@ -40,6 +40,7 @@ type c08Case struct {
 	Targets []FaRec `json:"targets"`
 	Opts    udOpts  `json:"opts"`
 	Synth   bool    `json:"synthetic,omitempty"` // bounded-exhaustive allocation arm
+	CLI     bool    `json:"cli,omitempty"`
 }
 
 const (
@@ -259,7 +260,49 @@ func checkC08(c c08Case, o *Obs) error {
 	if err != nil {
 		return err
 	}
-	return c08Validate(c, rows, out, o)
+	if err := c08Validate(c, rows, out, o); err != nil {
+		return err
+	}
+	if c.CLI && gofastaBin() != "" {
+		dir, cleanup := caseDir("c08cli")
+		defer cleanup()
+		args := append([]string{"updown", "topranking", "-q", writeFile(dir, "q.fasta", qTxt), "-t", writeFile(dir, "t.fa", tTxt), "-r", writeFile(dir, "ref.fasta", ">ref\n"+c.Ref+"\n")}, c.Opts.cliFlags(dir)...)
+		if err := cliAgree(o, "updown topranking", out, args...); err != nil {
+			return err
+		}
+	}
+	return nil
+}
+
+// cliFlags renders the options as command-line flags (zero values are the flags' defaults and are omitted).
+func (o udOpts) cliFlags(dir string) []string {
+	var a []string
+	add := func(name string, v int) {
+		if v != 0 {
+			a = append(a, name, strconv.Itoa(v))
+		}
+	}
+	add("--size-total", o.SizeTotal)
+	add("--size-up", o.SizeUp)
+	add("--size-down", o.SizeDown)
+	add("--size-side", o.SizeSide)
+	add("--size-same", o.SizeSame)
+	add("--dist-all", o.DistAll)
+	add("--dist-up", o.DistUp)
+	add("--dist-down", o.DistDown)
+	add("--dist-side", o.DistSide)
+	add("--dist-push", o.DistPush)
+	if o.NoFill {
+		a = append(a, "--no-fill")
+	}
+	if o.Table {
+		a = append(a, "--table")
+	}
+	a = append(a, "--threshold-pair", strconv.FormatFloat(float64(o.ThreshP), 'g', -1, 32), "--threshold-target", strconv.Itoa(o.ThreshT))
+	if len(o.Ignore) > 0 {
+		a = append(a, "--ignore", writeFile(dir, "ignore.txt", strings.Join(o.Ignore, "\n")+"\n"))
+	}
+	return a
 }
 
 func c08Validate(c c08Case, rows map[string]*udRow, out string, o *Obs) error {
@@ -273,6 +316,7 @@ func c08Validate(c c08Case, rows map[string]*udRow, out string, o *Obs) error {
 	o.LabelIf(dl[1] != udInf, "dist-limits")
 	o.LabelIf(op.NoFill, "no-fill")
 	o.LabelIf(len(op.Ignore) > 0, "ignore")
+	o.LabelIf(len(c.Ref) > 64, "wide-alignment")
 	nt := false
 	for _, q := range c.Queries {
 		cands := udCandidates(c, q)
@@ -525,9 +569,21 @@ func genUDOpts(t *rapid.T, targets []FaRec, width int) udOpts {
 	return o
 }
 
-func genUDInput(t *rapid.T, minQueries int) (ref string, queries, targets []FaRec) {
+func genUDInput(t *rapid.T, minQueries int, iupacRef bool) (ref string, queries, targets []FaRec) {
 	w := rapid.IntRange(6, 30).Draw(t, "width")
+	wide := rapid.IntRange(0, 7).Draw(t, "wide") == 0
+	if wide {
+		// wide alignments: room for dozens of separate ambiguity tracts per sequence
+		w = rapid.IntRange(66, 240).Draw(t, "wideWidth")
+	}
 	ref = genACGT(t, w, "refBase")
+	if iupacRef && rapid.IntRange(0, 2).Draw(t, "refIupac") == 0 {
+		b := []byte(ref)
+		for k := rapid.IntRange(1, 3).Draw(t, "nRefAmb"); k > 0; k-- {
+			b[rapid.IntRange(0, w-1).Draw(t, "refAmbPos")] = alpha17[4+rapid.IntRange(0, 12).Draw(t, "refAmbSym")]
+		}
+		ref = string(b)
+	}
 	var pool []udSNP
 	for k := rapid.IntRange(2, 6).Draw(t, "poolSize"); k > 0; k-- {
 		p := rapid.IntRange(0, w-1).Draw(t, "snpPos")
@@ -557,13 +613,40 @@ func genUDInput(t *rapid.T, minQueries int) (ref string, queries, targets []FaRe
 		}
 		targets = append(targets, FaRec{ID: fmt.Sprintf("t%d", i), Seq: seq})
 	}
+	if wide {
+		// many short ambiguity tracts (every 2nd / 3rd column) in some sequences, with SNPs of the others
+		// falling on the first, last and only column of a tract
+		pepper := func(s string) string {
+			b := []byte(s)
+			step := rapid.IntRange(2, 3).Draw(t, "tractStep")
+			tl := rapid.IntRange(1, step-1).Draw(t, "tractLen")
+			off := rapid.IntRange(0, step-1).Draw(t, "tractOff")
+			for i := off; i < len(b); i += step {
+				for k := 0; k < tl && i+k < len(b); k++ {
+					b[i+k] = rapid.SampledFrom([]byte{'N', 'N', '-', 'R'}).Draw(t, "tractSym")
+				}
+			}
+			return string(b)
+		}
+		for i := range targets {
+			if rapid.IntRange(0, 2).Draw(t, "pepperTarget") == 0 {
+				targets[i].Seq = pepper(targets[i].Seq)
+			}
+		}
+		for i := range queries {
+			if rapid.IntRange(0, 3).Draw(t, "pepperQuery") == 0 {
+				queries[i].Seq = pepper(queries[i].Seq)
+			}
+		}
+	}
 	return
 }
 
 func genC08(t *rapid.T) c08Case {
 	c := c08Case{}
-	c.Ref, c.Queries, c.Targets = genUDInput(t, 1)
+	c.Ref, c.Queries, c.Targets = genUDInput(t, 1, false)
 	c.Opts = genUDOpts(t, c.Targets, len(c.Ref))
+	c.CLI = rapid.IntRange(0, 19).Draw(t, "cli") == 0
 	return c
 }
 
